@@ -5,6 +5,10 @@ import FontVerif.Model.Tent
 import FontVerif.Model.Normalize
 import FontVerif.Model.Ivs
 import FontVerif.Model.Metrics
+import FontVerif.Model.Ieee
+import FontVerif.Model.IeeeArith
+import FontVerif.Model.FixedConv
+import FontVerif.Model.FloatDelta
 namespace FontVerif.Drv.C11
 open FontVerif
 
@@ -230,9 +234,116 @@ def handleInts (cmd : String) (xs : List Int) : Option String :=
   | "met.scale", [sc, v] => some (toString (Metrics.applyScale sc v))
   | _, _ => none
 
+/-! handlers for the settings loop, avar 2 and the f32 / f64 path (Model/FloatDelta.lean) -/
+
+def pAxisRec : P Normalize.AxisRec := fun r =>
+  match r with
+  | t :: a :: b :: c :: r => if t < 0 then none else some (⟨t.toNat, a, b, c⟩, r)
+  | _ => none
+
+def pStore : P (List (List (Int × Int × Int)) × List (Option Tent.SubTable)) := fun r =>
+  match pList (pList pTriple) r with
+  | none => none
+  | some (regions, r) => match pList pSub r with
+    | none => none
+    | some (subs, r) => some ((regions, subs), r)
+
+/-- `0` | `1 <x>` -/
+def pOpt {α} (p : P α) : P (Option α) := fun r =>
+  match r with
+  | 0 :: r => some (none, r)
+  | 1 :: r => match p r with
+    | some (a, r) => some (some a, r)
+    | none => none
+  | _ => none
+
+def pDsim : P (Nat × Nat × List Nat) := fun r =>
+  match pNat r with
+  | none => none
+  | some (fmt, r) => match pNat r with
+    | none => none
+    | some (cnt, r) => match pList pNat r with
+      | none => none
+      | some (bytes, r) => some ((fmt, cnt, bytes), r)
+
+def pAvar2 : P FloatDelta.Avar2 := fun r =>
+  match pOpt pDsim r with
+  | none => none
+  | some (m, r) => match pOpt pStore r with
+    | none => none
+    | some (st, r) => some (⟨m, st⟩, r)
+
+def showOptF : Option Ieee.FVal → String
+  | none => "err"
+  | some v => v.show
+
+def handleInts2 (cmd : String) (xs : List Int) : Option String :=
+  match cmd with
+  | "norm.all" =>
+    -- <nAxes> {tag min def max}* <0 | 1 <nMaps> {<k> (f t)*}*> <0 | 1 avar2> <nSettings> {tag value}* <outLen>
+    match pList pAxisRec xs with
+    | none => none
+    | some (axes, r) => match pOpt (pList (pList pPairII)) r with
+      | none => none
+      | some (maps, r) => match pOpt pAvar2 r with
+        | none => none
+        | some (a2, r) => match pList pPairNI r with
+          | none => none
+          | some (settings, r) => match r with
+            | [n] => if n < 0 then none else
+              some (joinInts (FloatDelta.userToNormalizedFull axes maps a2 settings n.toNat))
+            | _ => none
+  | "f32.scalar" =>
+    match pList pTriple xs with
+    | some (axes, r) => match pList pInt r with
+      | some (coords, []) => some (FloatDelta.computeScalarF32 axes coords).show
+      | _ => none
+    | none => none
+  | "f32.delta" =>
+    match pStore xs with
+    | some ((regions, subs), r) => match r with
+      | outer :: inner :: r =>
+        if outer < 0 ∨ inner < 0 then none else
+        match pList pInt r with
+        | some (coords, []) =>
+          some (showOptF (FloatDelta.computeFloatDelta regions subs outer.toNat inner.toNat coords))
+        | _ => none
+      | _ => none
+    | none => none
+  | "f32.apply" =>
+    -- kind (0 F2Dot14, 1 Fixed, 2 FWord/UfWord) raw <f64 bits of the delta>
+    match xs with
+    | [kind, raw, bits] =>
+      if bits < 0 then none else
+      let d := Ieee.decode Ieee.f64 bits.toNat
+      if kind = 0 then some (FloatDelta.applyF2Dot14 raw d).show
+      else if kind = 1 then some (FloatDelta.applyFixed raw d).show
+      else if kind = 2 then some (FloatDelta.applyWord raw d).show
+      else none
+    | _ => none
+  | "f32.op" =>
+    -- op (0 mul32, 1 div32, 2 mul64, 3 div64, 4 cvt→f32 of an f64, 5 cvt→f64 of an f32) a b (bit patterns)
+    match xs with
+    | [op, a, b] =>
+      if a < 0 ∨ b < 0 then none else
+      let d32 := Ieee.decode Ieee.f32
+      let d64 := Ieee.decode Ieee.f64
+      if op = 0 then some (toString (Ieee.encode Ieee.f32 (Ieee.mul Ieee.f32 (d32 a.toNat) (d32 b.toNat))))
+      else if op = 1 then some (toString (Ieee.encode Ieee.f32 (Ieee.div Ieee.f32 (d32 a.toNat) (d32 b.toNat))))
+      else if op = 2 then some (toString (Ieee.encode Ieee.f64 (Ieee.mul Ieee.f64 (d64 a.toNat) (d64 b.toNat))))
+      else if op = 3 then some (toString (Ieee.encode Ieee.f64 (Ieee.div Ieee.f64 (d64 a.toNat) (d64 b.toNat))))
+      else if op = 4 then some (toString (Ieee.encode Ieee.f32 (Ieee.cvt Ieee.f32 (d64 a.toNat))))
+      else if op = 5 then some (toString (Ieee.encode Ieee.f64 (Ieee.cvt Ieee.f64 (d32 a.toNat))))
+      else none
+    | _ => none
+  | _ => none
+
 def handle (cmd : String) (args : List String) : Option String :=
   match parseInts? args with
   | none => none
-  | some xs => handleInts cmd xs
+  | some xs =>
+    match handleInts cmd xs with
+    | some r => some r
+    | none => handleInts2 cmd xs
 
 end FontVerif.Drv.C11
